@@ -108,7 +108,7 @@ pub(super) fn unary_check(op: u8, p: Float, dims: &[usize], mode: u8) {
 /// sum(k): last k dimensions collapsed into one unit dimension holding their sums; k = 0 identity
 pub(super) fn sum_check(dims: &[usize], k: usize, mode: u8) {
     let n = numel(dims);
-    let xv = sym_vec(n, sym_val);
+    let xv = if n > 12 { sym_vec_sparse(n, sym_val) } else { sym_vec(n, sym_val) };
     let lead_rank = if k >= dims.len() { 0 } else { dims.len() - k };
     let lead = numel(&dims[..lead_rank]);
     let block = n / lead;
